@@ -210,6 +210,14 @@ func (ms *Modules) resolveIdentities() []error {
 	for _, i := range ms.typeDict.identities.dict {
 		i.Identity.Values = nil
 	}
+	// That goes for the identities of texts that are in the dictionary no
+	// longer as well (a revision of a submodule that a later one has
+	// superseded in the includes).
+	for _, m := range ms.loaded() {
+		for _, i := range m.Identities() {
+			i.Values = nil
+		}
+	}
 
 	// We start by finding the direct children of all identities using the
 	// 'base' statement.
